@@ -8,6 +8,9 @@ pub mod p02;
 pub mod p03;
 pub mod p04;
 pub mod p08;
+pub mod p09;
+pub mod p15;
+pub mod p18;
 
 /// (grammar index, rule index) pairs a property runs on.
 pub fn pairs<'w>(world: &'w World, families: &[&str]) -> Vec<(&'w GInfo, usize)> {
@@ -40,6 +43,9 @@ pub fn run_property(world: &World, ctx: &mut Ctx) -> Option<Value> {
         "C03" => p03::run(world, ctx),
         "C04" => p04::run(world, ctx),
         "C08" => p08::run(world, ctx),
+        "C09" => p09::run(world, ctx, ctx.dump.clone().as_deref()),
+        "C15" => p15::run(world, ctx),
+        "C18" => p18::run(world, ctx),
         _ => None,
     }
 }
@@ -53,6 +59,9 @@ pub fn replay_case(ctx: &mut Ctx, gi: &GInfo, rule: usize, doc: &Value) -> Optio
         "C03" => p03::replay(ctx, gi, rule, doc),
         "C04" => p04::check_input(ctx, gi, rule, input),
         "C08" => p08::replay(ctx, gi, rule, doc),
+        "C09" => p09::replay(ctx, gi, rule, doc),
+        "C15" => p15::check_input(ctx, gi, rule, input),
+        "C18" => p18::replay(ctx, gi, rule, doc),
         _ => return None,
     })
 }
